@@ -339,7 +339,30 @@ macro_rules! fam_unsigned {
             }
             fn c17_digit(rec: &mut Rec, xb: &B, d: u64) {
                 let x = <Self as Bn>::dec(xb);
-                let d = d as $D;
+                // digit operands at the structural boundaries of the digit type: half-digit, half-digit +- 1,
+                // one bit above half, top bit, extremes, small, random of a random bit length
+                let bits = <$D>::BITS as u64;
+                let h = bits / 2;
+                let sel = d;
+                let d: $D = match sel % 16 {
+                    0 => 1,
+                    1 => <$D>::MAX,
+                    2 => <$D>::MAX - 1,
+                    3 => ((1u128 << h) - 1) as $D,
+                    4 => (1u128 << h) as $D,
+                    5 => ((1u128 << h) + 1) as $D,
+                    6 => ((1u128 << (h + 1)) - 1) as $D,
+                    7 => ((1u128 << (h + 1)) - 1 - ((sel >> 8) % 5) as u128) as $D,
+                    8 => (1u128 << (bits - 1)) as $D,
+                    9 => ((1u128 << (bits - 1)) + 1) as $D,
+                    10 => ((1u128 << (bits - 1)) - 1) as $D,
+                    11 => ((sel >> 8) % 300) as $D,
+                    12 | 13 => {
+                        let bl = 1 + (sel >> 8) % bits;
+                        (((sel >> 16) as u128 | (1u128 << 63)) >> (64 - bl) as u128) as $D
+                    }
+                    _ => (sel >> 7) as $D,
+                };
                 rec.sem = "C17";
                 // Add<digit> is exercised only when the exact result is representable (decided by the harness)
                 let mut db = vec![0u8; xb.len()];
@@ -574,17 +597,12 @@ where
                     c17_fold::<T>(&mut rec, &items);
                 }
             }
-            for _ in 0..scale(20, 200) {
+            for _ in 0..scale(60, 400) {
                 let x = match r.below(3) {
                     0 => gen::extreme(&mut r, n),
                     _ => gen::any(&mut r, n, &bnd),
                 };
-                let d = match r.below(4) {
-                    0 => 1,
-                    1 => u64::MAX,
-                    2 => r.below(300),
-                    _ => r.next(),
-                };
+                let d = r.next();
                 T::c17_digit(&mut rec, &x, d);
             }
         }
